@@ -516,8 +516,13 @@ class ProcProxyThread(threading.Thread):
             if not last_in_pipeline:
                 # Close wrappers before closing raw fds to avoid
                 # "Bad file descriptor" on finalization in Python 3.14+.
-                safe_fdclose(sp_stdout)
-                safe_fdclose(sp_stderr)
+                # Only wrappers opened above are ours to close; sys.stdout /
+                # sys.stderr (or whatever another alias thread has swapped in
+                # for them meanwhile) are borrowed.
+                if self.c2pwrite != -1:
+                    safe_fdclose(sp_stdout)
+                if self.errwrite != -1 and self.errwrite != self.c2pwrite:
+                    safe_fdclose(sp_stderr)
                 # Close write ends via PipeChannel to signal EOF to downstream
                 for ch in spec.pipe_channels:
                     ch.close_writer()
@@ -527,8 +532,10 @@ class ProcProxyThread(threading.Thread):
                     self._stderr_pipe.close_writer()
                 return
             # clean up
-            for handle in (sp_stdout, sp_stderr):
-                safe_fdclose(handle, cache=self._closed_handle_cache)
+            if self.c2pwrite != -1:
+                safe_fdclose(sp_stdout, cache=self._closed_handle_cache)
+            if self.errwrite != -1 and self.errwrite != self.c2pwrite:
+                safe_fdclose(sp_stderr, cache=self._closed_handle_cache)
             # Close write ends via PipeChannel to signal EOF to readers
             for ch in spec.pipe_channels:
                 ch.close_writer()
